@@ -63,11 +63,6 @@ Definition certified_costs_exact_stmt : Prop :=
 
 (* ---- the mirror of rule_min_costs --------------------------------------------- *)
 
-(* when the mirrored iteration returns, what it returns are the true minima (checked
-   against a certificate) — stated for the grammars on which the search certifies *)
-Definition all_productive_b (l : list (N * cost_ans)) : bool :=
-  forallb (fun ra => match snd ra with CUnprod => false | CCost _ _ => true end) l.
-
 (* the iteration does NOT terminate on every grammar whose rules are all productive *)
 Definition min_iter_diverges_refuted_stmt : Prop :=
   exists g c, wf_grammar g = true /\ (forall a, (0 < c a)%N) /\
